@@ -463,6 +463,25 @@ def run_shard(spec_, res):
                 break
     except Exception:
         res.count("legacy_sources_unavailable")
+    # pattern lists in which clones refer to clones (chains forwards and backwards, a cycle, a clone of itself, a clone of an empty
+    # or missing position): API-built and hand-edited songs have them
+    try:
+        import rv.api as api
+        for cname, srcs in (("forward-chain", [None, 2, 3, 4, 0]), ("backward-chain", [None, 0, 1, 2, 3]), ("cycle", [None, 2, 3, 1]), ("self", [None, 1, 0]),
+                            ("dangling", [None, 7, 1, "gap"]), ("long-forward", [None, 2, 3, 4, 5, 6, 0])):
+            cp = api.Project()
+            for s_ in srcs:
+                if s_ is None:
+                    q = api.Pattern(tracks=1, lines=2, name="P")
+                    q.data[0][0].vel = 9
+                    cp.attach_pattern(q)
+                elif s_ == "gap":
+                    cp.attach_pattern(None)
+                else:
+                    cp.attach_pattern(api.PatternClone(source=s_, x=8 * s_))
+            sources.append((f"clone-chains:{cname}", cp.read(), {"clone_sources": [str(x) for x in srcs]}))
+    except Exception:
+        res.count("clone_chain_sources_unavailable")
     for origin, raw, desc in sources:
         cycle(res, raw, origin.split(":")[0], dict(desc, origin=origin, mutation=None))
         nm = spec_["mutations"] if origin.startswith("fixture") else max(2, spec_["mutations"] // 6)
